@@ -247,6 +247,7 @@ def declare(spec, cfg, poly=False, ocp=None, stage=None, with_method=True, paren
     # dynamics
     if spec.ode is not None:
         i = 0
+        der_calls = []
         for gi, (r, c) in enumerate(state_groups(spec)):
             rhs = [mx(e) for e in spec.ode[i:i + r * c]]
             rhs = rhs[0] if r * c == 1 else ca.reshape(ca.vcat(rhs), r, c)
@@ -256,8 +257,12 @@ def declare(spec, cfg, poly=False, ocp=None, stage=None, with_method=True, paren
             if spec.derscale is not None:
                 sl = [float(v) for v in spec.derscale[i:i + r * c]]
                 kw['scale'] = sl[0] if r * c == 1 else ca.reshape(ca.DM(sl), r, c)
-            st.set_der(b.xs[gi], rhs, **kw)
+            der_calls.append((b.xs[gi], rhs, kw))
             i += r * c
+        if getattr(spec, 'der_order', None) == 'reversed':
+            der_calls = der_calls[::-1]
+        for x_, rhs_, kw_ in der_calls:
+            st.set_der(x_, rhs_, **kw_)
     if spec.nxt is not None:
         i = 0
         calls = []
